@@ -2,6 +2,7 @@
 import datetime
 import decimal
 import io
+import json
 import math
 import uuid
 
@@ -171,6 +172,34 @@ def run_c16(ctx, fa):
                 "1971..2100); UUIDs; decimals for bytes and fixed (sizes 1..17, precision up to the size's maximum, all scales) incl. -0, zero, all-9 digits, "
                 "one digit too many, one fractional digit too many, positive exponents, two's-complement length edges, values not fitting the size, NaN/Inf")
     core.judge_cases(ctx, cases, "logical", ("C16.",), describe=describe, sig_fn=sig_c16)
+    # logical values inside unions whose earlier branches are the plain types a sloppy check could take them for
+    from . import p_binary
+    ucases = []
+    urnd = ctx.sub_rnd("c16u")
+    for i in range(60 if ctx.quick() else 600):
+        kind = urnd.choice(["dec", "dec", "date", "uuid", "ts"])
+        if kind == "dec":
+            prec = urnd.choice([4, 9, 18, 30])
+            scale = urnd.choice([0, 2, prec // 2])
+            lt = {"type": "bytes", "logicalType": "decimal", "precision": prec, "scale": scale} if urnd.random() < 0.6 else \
+                {"type": "fixed", "name": "Dz", "size": 16, "logicalType": "decimal", "precision": prec, "scale": scale}
+            digits = urnd.randint(1, prec)
+            val = decimal.Decimal((urnd.choice([0, 1]), tuple(urnd.randint(1 if k == 0 else 0, 9) for k in range(digits)), -scale))
+            plain = [urnd.choice(["double", "float"])] + (["bytes"] if urnd.random() < 0.3 and lt["type"] != "bytes" else [])
+        elif kind == "date":
+            lt, val, plain = {"type": "int", "logicalType": "date"}, datetime.date(urnd.randint(1, 9999), urnd.randint(1, 12), urnd.randint(1, 28)), ["string", "long"]
+        elif kind == "uuid":
+            lt, val, plain = {"type": "string", "logicalType": "uuid"}, uuid.UUID(int=urnd.getrandbits(128)), ["bytes", "int"]
+        else:
+            lt = {"type": "long", "logicalType": urnd.choice(["timestamp-micros", "timestamp-millis"])}
+            val = datetime.datetime(urnd.randint(1971, 2100), urnd.randint(1, 12), urnd.randint(1, 28), urnd.randint(0, 23), 0, 0, 0, tzinfo=datetime.timezone.utc)
+            plain = ["double", "string"]
+        schema = (["null"] if urnd.random() < 0.5 else []) + plain + [lt]
+        uc = p_binary.sl_roundtrip_case(fa, "u%d" % i, schema, [val], tuples=True, parsed_form=urnd.random() < 0.4)
+        uc["c16"] = True
+        ucases.append(uc)
+    core.judge_cases(ctx, ucases, "logical-in-union", ("C16.",), describe=lambda c: "schema=%s datum=%s" % (
+        json.dumps(proj.unpj(c["schema"]))[:160], repr(proj.unpv(c["data"][0]))[:60] if c["data"] else ""))
     by = {}
     for c in cases:
         k = proj.unpj(c["schema"]).get("logicalType")
